@@ -46,7 +46,7 @@ def main():
             rc, o = sh(["go", "test", "-count=1"] + tags + ["-run", meta.get("demo_test_regex") or "Seeded|Seed|Verif|Demo|Mut", pkg], cwd=wt, timeout=1800)
             os.remove(dst)
             return rc, o[-1500:]
-        if "--no-demo" not in sys.argv:
+        if "--no-demo" not in sys.argv and "--check-only" not in sys.argv:
             rc0, o0 = run_demo()
             out["demo_without_change"] = "pass" if rc0 == 0 else f"FAIL rc={rc0}: {o0}"
         rc, o = sh(["git", "-C", wt, "apply", os.path.join(d, "patch.diff")])
@@ -55,11 +55,13 @@ def main():
             print(json.dumps(out, indent=1)); return
         rc, o = sh(["go", "build", "./..."], cwd=wt)
         out["builds"] = rc == 0
-        if "--no-demo" not in sys.argv:
+        if "--no-demo" not in sys.argv and "--check-only" not in sys.argv:
             rc1, o1 = run_demo()
             out["demo_with_change"] = "fail (as intended)" if rc1 not in (0, None) else f"rc={rc1}: {o1}"
         pkgs = sorted({"./" + os.path.dirname(f) + "/..." for f in meta.get("files_changed", [])})
         full = "--full-suite" in sys.argv
+        if "--check-only" in sys.argv:
+            pkgs, full = ["./internal/fs/..."], False   # re-validation of the check only: the suite result is already on record
         rc, o = sh(["go", "test", "-json", "-vet=off", "-count=1", "-timeout", "25m"] + (["./..."] if full else pkgs), cwd=wt, timeout=3000)
         stable = set(json.load(open("/root/.vp/BASELINE.json"))["stable_pass"])
         fails = []
@@ -70,8 +72,9 @@ def main():
                 continue
             if e.get("Test") and e.get("Action") == "fail" and f"{e['Package']}::{e['Test']}" in stable:
                 fails.append(f"{e['Package']}::{e['Test']}")
-        out["existing_tests_failing_with_change"] = sorted(set(fails))
-        out["existing_tests_scope"] = "whole pinned suite" if full else " ".join(pkgs)
+        if "--check-only" not in sys.argv:
+            out["existing_tests_failing_with_change"] = sorted(set(fails))
+            out["existing_tests_scope"] = "whole pinned suite" if full else " ".join(pkgs)
         # the check
         t = time.time()
         rc, o = sh(["./check", prop, "--tier", "quick"], cwd=CHK, env=dict(ENV, VERIF_REPO=wt, VERIF_EVIDENCE_DIR=os.path.join(CHK, ".build", "evidence_scratch")), timeout=3600)
